@@ -12,6 +12,7 @@ package main
 import (
 	"fmt"
 	"go/types"
+	"reflect"
 	"sort"
 	"strings"
 
@@ -282,6 +283,27 @@ func (w *World) sweep() (scanned int, findings []sweepFinding) {
 							findings = append(findings, sweepFinding{shortFuncName(fn), "global_write", "updates package-level map " + g.Name(), pos})
 						}
 					}
+				case *ssa.MakeInterface:
+					// fmt calls String()/Error() of what it is given: a String()/Error() method that hands its own receiver to a
+					// formatting call recurses until the stack overflows (a fatal error recover() cannot catch)
+					if n := fn.Name(); (n == "String" || n == "Error" || n == "GoString") && fn.Signature.Recv() != nil && len(fn.Params) > 0 {
+						self := false
+						switch v := ins.X.(type) {
+						case *ssa.Parameter:
+							self = v == fn.Params[0]
+						case *ssa.UnOp:
+							if a, ok := v.X.(*ssa.Alloc); ok && v.Op.String() == "*" && a.Referrers() != nil {
+								for _, r := range *a.Referrers() {
+									if st, ok := r.(*ssa.Store); ok && st.Addr == a && st.Val == fn.Params[0] {
+										self = true
+									}
+								}
+							}
+						}
+						if self {
+							findings = append(findings, sweepFinding{shortFuncName(fn), "endless_recursion", "hands its own receiver to a formatting call, which calls " + n + "() again", pos})
+						}
+					}
 				case *ssa.Go:
 					findings = append(findings, sweepFinding{shortFuncName(fn), "concurrency", "starts a goroutine", pos})
 				case *ssa.Send:
@@ -338,6 +360,55 @@ func (w *World) sweep() (scanned int, findings []sweepFinding) {
 	return scanned, findings
 }
 
+// wireObligations: one obligation per field of every "wire" spec tagged with prop: the struct tag gives exactly that JSON name
+// (with exactly those options).  Decided by comparing struct tags - encoding/json is not part of the verified code.
+func (w *World) wireObligations(prop string) []*Obligation {
+	var out []*Obligation
+	for _, ws := range w.db.Wires {
+		if prop != "" && !hasProp(ws.Props, prop) {
+			continue
+		}
+		var st *types.Struct
+		for _, p := range w.prog.AllPackages() {
+			if p.Pkg.Path() != ws.Pkg {
+				continue
+			}
+			if tn, ok := p.Pkg.Scope().Lookup(ws.Type).(*types.TypeName); ok {
+				st, _ = tn.Type().Underlying().(*types.Struct)
+			}
+		}
+		short := shortKey(ws.Pkg) + "." + ws.Type
+		for _, f := range ws.Fields {
+			name := short + "#wire." + f[0]
+			got, found := "", false
+			if st != nil {
+				for i := 0; i < st.NumFields(); i++ {
+					if st.Field(i).Name() == f[0] {
+						found = true
+						got = reflectTagGet(st.Tag(i), "json")
+					}
+				}
+			}
+			ob := &Obligation{Name: name, Func: short, Kind: "wire", Props: []string{prop}, Src: ws.Src, Solver: "syntactic"}
+			if found && got == f[1] {
+				ob.Goal, ob.Result = TTrue, "unsat"
+			} else {
+				ob.Goal, ob.Result = TFalse, "sat"
+				ob.Model = fmt.Sprintf("field %s of %s: json tag is %q, the wire format requires %q", f[0], short, got, f[1])
+				if !found {
+					ob.Model = fmt.Sprintf("type %s has no field %s (wire format requires json %q)", short, f[0], f[1])
+				}
+			}
+			out = append(out, ob)
+		}
+	}
+	return out
+}
+
+func reflectTagGet(tag, key string) string {
+	return reflect.StructTag(tag).Get(key)
+}
+
 func cmdSweep() {
 	w, err := loadWorld()
 	if err != nil {
@@ -349,4 +420,68 @@ func cmdSweep() {
 		fmt.Printf("%s %s: %s (%s)\n", f.Kind, f.Func, f.What, f.Pos)
 	}
 	fmt.Printf("sweep: %d functions scanned, %d findings\n", n, len(fs))
+}
+
+
+// cmdCalls prints the static call edges between library functions ("caller<TAB>callee", keys as in the contract files:
+// package directory, then the function name).  Closures belong to their parents' cone (edge parent -> closure); a function
+// used as a value counts as called.  Interface dispatch is not followed.  Used by tools/tagaudit.py --cone.
+func cmdCalls() {
+	w, err := loadWorld()
+	if err != nil {
+		fmt.Println("engine error:", err)
+		return
+	}
+	const pre = "github.com/Azbesciak/RealDecisionMaker/lib/"
+	inLib := func(fn *ssa.Function) bool {
+		k := funcKey(fn)
+		return strings.HasPrefix(k, pre) && fn.Blocks != nil
+	}
+	seen := map[string]bool{}
+	var keys []string
+	for k := range w.fns {
+		keys = append(keys, k)
+	}
+	sort.Strings(keys)
+	var visit func(fn *ssa.Function)
+	done := map[*ssa.Function]bool{}
+	visit = func(fn *ssa.Function) {
+		if done[fn] || !inLib(fn) {
+			return
+		}
+		done[fn] = true
+		from := strings.TrimPrefix(funcKey(fn), pre)
+		edge := func(to *ssa.Function) {
+			if to == nil || !inLib(to) {
+				return
+			}
+			l := from + "\t" + strings.TrimPrefix(funcKey(to), pre)
+			if !seen[l] {
+				seen[l] = true
+				fmt.Println(l)
+			}
+			visit(to)
+		}
+		for _, a := range fn.AnonFuncs {
+			edge(a)
+		}
+		for _, b := range fn.Blocks {
+			for _, ins := range b.Instrs {
+				if c, ok := ins.(ssa.CallInstruction); ok {
+					edge(c.Common().StaticCallee())
+				}
+				for _, op := range ins.Operands(nil) {
+					if op == nil || *op == nil {
+						continue
+					}
+					if f, ok := (*op).(*ssa.Function); ok {
+						edge(f)
+					}
+				}
+			}
+		}
+	}
+	for _, k := range keys {
+		visit(w.fns[k])
+	}
 }
